@@ -78,13 +78,40 @@ pub fn child(args: &[String]) {
                "context_builder_set_settings", "context_builder_build", "context_builder_set_signer", "context_cancel", "reader_from_context",
                "builder_from_context", "reader_json", "reader_is_embedded", "builder_set_no_embed", "builder_set_remote_url",
                "builder_with_definition", "signer_reserve_size", "free", "free", "reader_free", "builder_free", "signer_free", "free_null"];
+    // Directed misuse scenarios (interleaved with the random calls): use a handle, give it away or free it, then use and
+    // free it again -- the exact histories in which a stale registry answer would matter.
+    type Step = (&'static str, Vec<Option<&'static str>>, Option<&'static str>);
+    let scenarios: Vec<Vec<Step>> = vec![
+        vec![("builder_from_json", vec![], Some("h")), ("builder_set_no_embed", vec![Some("h")], None), ("builder_with_definition", vec![Some("h")], Some("h2")),
+             ("builder_set_no_embed", vec![Some("h")], None), ("builder_free", vec![Some("h")], None), ("builder_set_no_embed", vec![Some("h2")], None)],
+        vec![("signer_from_info", vec![], Some("s")), ("context_builder_new", vec![], Some("cb")), ("signer_reserve_size", vec![Some("s")], None),
+             ("context_builder_set_signer", vec![Some("cb"), Some("s")], None), ("signer_reserve_size", vec![Some("s")], None), ("signer_free", vec![Some("s")], None)],
+        vec![("context_builder_new", vec![], Some("cb")), ("settings_new", vec![], Some("st")), ("context_builder_set_settings", vec![Some("cb"), Some("st")], None),
+             ("context_builder_build", vec![Some("cb")], Some("c")), ("context_builder_set_settings", vec![Some("cb"), Some("st")], None), ("context_builder_build", vec![Some("cb")], None),
+             ("free", vec![Some("cb")], None), ("context_cancel", vec![Some("c")], None)],
+        vec![("context_new", vec![], Some("c")), ("context_cancel", vec![Some("c")], None), ("free", vec![Some("c")], None), ("context_cancel", vec![Some("c")], None),
+             ("reader_from_context", vec![Some("c")], None), ("free", vec![Some("c")], None)],
+        vec![("context_new", vec![], Some("c")), ("reader_from_context", vec![Some("c")], Some("r")), ("reader_is_embedded", vec![Some("r")], None), ("reader_free", vec![Some("r")], None),
+             ("reader_json", vec![Some("r")], None), ("reader_free", vec![Some("r")], None), ("builder_set_no_embed", vec![Some("r")], None)],
+        vec![("settings_new", vec![], Some("st")), ("settings_set_value", vec![Some("st")], None), ("free", vec![Some("st")], None), ("settings_set_value", vec![Some("st")], None),
+             ("settings_new", vec![], Some("st2")), ("settings_set_value", vec![Some("st")], None), ("free", vec![Some("st")], None)],
+    ];
+    let mut script: std::collections::VecDeque<Step> = Default::default();
+    let mut named: HashMap<&'static str, usize> = HashMap::new();
     for _ in 0..ncalls {
-        let name = *api.choose(&mut rng).unwrap();
+        if script.is_empty() && rng.gen_bool(0.08) {
+            script.extend(scenarios.choose(&mut rng).unwrap().iter().cloned());
+        }
+        let (name, forced, bind): Step = match script.pop_front() { Some(s) => s, None => (*api.choose(&mut rng).unwrap(), vec![], None) };
+        let mut forced_it = forced.into_iter();
         unsafe {
             // (kind, args [(addr, class, expected type, role)], call) ; role: "borrow" | "consume" | "free"
             let mut args_v: Vec<(usize, &'static str, &'static str, &'static str)> = vec![];
             let mut take = |ty: &'static str, role: &'static str, pool: &mut Pool, rng: &mut StdRng| -> usize {
-                let (a, c) = pool.pick(ty, rng);
+                let (a, c) = match forced_it.next().flatten().and_then(|n| named.get(n).copied()) {
+                    Some(a) => (a, match pool.live.get(&a) { Some(t) if *t == ty => "right", Some(_) => "wrong", None => if a == 0 { "null" } else { "freed" } }),
+                    None => pool.pick(ty, rng),
+                };
                 args_v.push((a, c, ty, role));
                 a
             };
@@ -159,6 +186,7 @@ pub fn child(args: &[String]) {
             }
             let _ = all_valid;
             if ret != 0 { if let Some(t) = ret_ty { pool.live.insert(ret, t); } }
+            if let Some(b) = bind { named.insert(b, ret); }
         }
     }
     emit(&json!({"e": "end"}));
